@@ -3,7 +3,7 @@
    Process.io_counters are the model's.  The first is a finite sweep lifted by a lemma: a
    program reads [flags] only through [flags & mask], so its result is determined by
    [flags & M] (M = all masks or-ed), which lies in [0, M]. *)
-From PV Require Import Base.Bits C14.Spec C14.PyMini Gen.C14_Tables C14.Proofs.
+From PV Require Import Base.Bits C14.Spec C14.PyMini Gen.C14_Tables C14.Proofs C14.ProofsIO.
 
 Lemma land_le_r a m : 0 <= a -> 0 <= m -> 0 <= Z.land a m <= m.
 Proof.
@@ -154,3 +154,49 @@ Proof.
   { rewrite <- !testbit_odd_div by lia. apply testbit_k_open_flags; lia. }
   rewrite M. change 1024 with (2 ^ 10) in *. now rewrite A.
 Qed.
+
+(* ------------------------------------------------ the translated loop body of io_counters
+   equals the hand-written [io_line] (repaired code: strict = false) on every line *)
+From PV Require Import C14.PyLoop.
+
+Theorem gen_io_loop_correct : forall d line, io_line_gen gen_io_loop d line = io_line false d line.
+Proof.
+  intros d line. unfold io_line_gen, io_line, gen_io_loop, colon_sp.
+  cbn [run_lprog exec set_line l_line l_name l_value l_fields].
+  destruct (strip line) as [|c l] eqn:Hs; [reflexivity|].
+  cbn [exec set_line set_nv set_value set_fields l_line l_name l_value l_fields].
+  destruct (split_seq [58; 32] (c :: l)) as [|n [|v [|x r]]]; try reflexivity.
+  cbn [set_nv set_value set_fields l_line l_name l_value l_fields].
+  destruct (parse_int v) as [z|]; reflexivity.
+Qed.
+
+(* the loop of io_counters over all lines, with the translated body *)
+Fixpoint io_fold_gen (p : lprog) (d : list (bytes * Z)) (ls : list bytes) : outcome (list (bytes * Z)) :=
+  match ls with
+  | [] => Val d
+  | l :: r => do d' <- io_line_gen p d l; io_fold_gen p d' r
+  end.
+
+Lemma io_fold_gen_correct : forall ls d, io_fold_gen gen_io_loop d ls = io_fold false d ls.
+Proof.
+  induction ls as [|l r IH]; intros d; [reflexivity|].
+  cbn [io_fold_gen io_fold]. rewrite gen_io_loop_correct.
+  destruct (io_line false d l) as [d'| |]; cbn [obind]; auto.
+Qed.
+
+Definition io_counters_gen (content : bytes) : outcome (list Z) :=
+  do d <- io_fold_gen gen_io_loop [] (lines_keep content);
+  match d with
+  | [] => Exc RuntimeError
+  | _ => mapM (fun k => of_option ValueError (assoc_get k d)) gen_pio_keys
+  end.
+
+Theorem io_counters_gen_correct : forall content, io_counters_gen content = io_counters false content.
+Proof.
+  intros content. unfold io_counters_gen, io_counters. rewrite io_fold_gen_correct.
+  destruct gen_io_tables_correct as [Hk _]. now rewrite Hk.
+Qed.
+
+Lemma io_counters_gen_roundtrip : forall items,
+  forallb ioitem_ok items = true -> io_counters_gen (k_io items) = spec_io items.
+Proof. intros items H. rewrite io_counters_gen_correct. now apply io_roundtrip. Qed.
